@@ -5,7 +5,8 @@ Driver entries for C12 (beliefs instantiated symbolically: `Sym`).
 
   fault <class> <seed> <n> <m> <k> <sub> fz=<bits> me=<bits> pr=<bits> in=<bits> no=<bits> li=<bits>
      class: kf | ukfa | ukfg | sukf | glik | bootg | boots | gpf-<kf|ukfa|ukfg|sukf>-<g|s>
-     -> out=<pred|full|partial|none|some> log=<me1,pr0,…|->
+     optional trailing token reps=<r>: r successive calls on the same object
+     -> r0:<pred|full|partial|none|some>:<me1,pr0,…|-> r1:…
   fault sis-<bootg|boots> <seed> <n> <m> <k> <steps> fz=… …
      -> s0:<pred|corrected|normpred>:<calls> s1:…
 -/
@@ -70,22 +71,39 @@ def sisSteps (lik : Script → FR (Option Unit)) : Nat → Nat → Script → Li
     let r := sisCorrectPhase (fun s p _ => bootCorrect lik (fun p _ => Sym.updated p) s p) Sym.normalised s Sym.pred Sym.poison
     ("s" ++ toString i ++ ":" ++ symLabel r.val ++ ":" ++ logStr r.log) :: sisSteps lik fuel (i + 1) r.script
 
+/-- `reps` successive calls on the same object, the script being consumed across the calls -/
+def repeatCalls (f : Script → String × String × Script) : Nat → Nat → Script → List String
+  | 0, _, _ => []
+  | fuel + 1, i, s =>
+    let (lab, log, s') := f s
+    ("r" ++ toString i ++ ":" ++ lab ++ ":" ++ log) :: repeatCalls f fuel (i + 1) s'
+
 def faultLine : P String := do
   let cls ← tok
   let _ ← nat; let _ ← nat; let m ← nat; let k ← nat; let sub ← nat
   let s ← readScript
-  done
+  let rest ← get
+  let reps ← match rest with
+    | [] => pure 1
+    | [t] => (if t.startsWith "reps=" then
+                match (t.drop 5).toString.toNat? with
+                | some r => pure r
+                | none => failure
+              else failure)
+    | _ => failure
+  set ([] : List String)
   if sub == 0 then failure
-  let fin (r : FR Sym) : String := "out=" ++ symLabel r.val ++ " log=" ++ logStr r.log
+  let sym (f : Script → FR Sym) : Script → String × String × Script :=
+    fun s => let r := f s; (symLabel r.val, logStr r.log, r.script)
+  let go (f : Script → String × String × Script) : P String := pure (join (repeatCalls f reps 0 s))
   match cls.splitOn "-" with
   | ["glik"] =>
-    let r := gaussLik () s
-    pure ("out=" ++ (if r.val.isSome then "some" else "none") ++ " log=" ++ logStr r.log)
-  | ["bootg"] => pure (fin (bootCorrect (gaussLik ()) (fun p _ => Sym.updated p) s Sym.pred))
-  | ["boots"] => pure (fin (bootCorrect (scriptedLik () .boot) (fun p _ => Sym.updated p) s Sym.pred))
+    go (fun s => let r := gaussLik () s; ((if r.val.isSome then "some" else "none"), logStr r.log, r.script))
+  | ["bootg"] => go (sym (fun s => bootCorrect (gaussLik ()) (fun p _ => Sym.updated p) s Sym.pred))
+  | ["boots"] => go (sym (fun s => bootCorrect (scriptedLik () .boot) (fun p _ => Sym.updated p) s Sym.pred))
   | ["gpf", w, l] =>
     match gaussOf w m k sub, likOf l .gpf with
-    | some g, some lk => pure (fin (gpfCorrect g Sym.sampled lk (fun p c _ => Sym.weighed p c) s Sym.pred Sym.poison))
+    | some g, some lk => go (sym (fun s => gpfCorrect g Sym.sampled lk (fun p c _ => Sym.weighed p c) s Sym.pred Sym.poison))
     | _, _ => failure
   | ["sis", b] =>
     match (if b == "bootg" then likOf "g" .boot else if b == "boots" then likOf "s" .boot else none) with
@@ -93,7 +111,7 @@ def faultLine : P String := do
     | none => failure
   | [c] =>
     match gaussOf c m k sub with
-    | some g => pure (fin (g s Sym.pred Sym.poison))
+    | some g => go (sym (fun s => g s Sym.pred Sym.poison))
     | none => failure
   | _ => failure
 
